@@ -131,6 +131,24 @@ def typestate_read_message(ck, fi, is_client=False):
     return n_states
 
 
+def _ends_wait(ck, fi, depth):
+    """Number of guarded settles of self._finish_future in ``fi`` or in the same-class methods it calls
+    (two levels): every settle found must be guarded (checked as obligations)."""
+    from ..rules import check_settles
+
+    n = check_settles(ck, "C05.wait-close-callback", fi, "self._finish_future")
+    if depth >= 2:
+        return n
+    cls = fi.qualname.rsplit(".", 1)[0]
+    seen = set()
+    for c in q.calls(fi.node):
+        if isinstance(c.func, ast.Attribute) and q.dotted(c.func.value) == "self" and c.func.attr not in seen:
+            seen.add(c.func.attr)
+            if ck.repo.has_func(fi.file, cls + "." + c.func.attr):
+                n += _ends_wait(ck, ck.func(fi.file, cls + "." + c.func.attr), depth + 1)
+    return n
+
+
 def forwarding(ck, fi, method):
     """In adapter method ``fi`` (named ``method``) the same-named method of a
     wrapped delegate (an attribute of self) is called exactly once on every
@@ -226,25 +244,62 @@ def run(ck):
     from ..rules import check_take_and_clear, check_settles
     ntc = check_take_and_clear(ck, "C05.wait-close-callback", occ, "self._close_callback", "the application's close callback is taken and cleared before it is invoked (at most once)")
     ck.floor("C05.wait-close-callback", ntc, 1, "uses of self._close_callback in _on_connection_close")
-    ns = check_settles(ck, "C05.wait-close-callback", occ, "self._finish_future")
-    ck.floor("C05.wait-close-callback", ns, 1, "settles of _finish_future in _on_connection_close (a disconnect must end the wait)")
+    ns = _ends_wait(ck, occ, 0)
+    ck.floor("C05.wait-close-callback", ns, 1, "settles of _finish_future reachable from _on_connection_close (a disconnect must end the wait)")
 
-    # the serving loop ends when the connection is gone: every handler around read_response leaves the loop
+    # the serving loop ends when the connection is gone: neither an error while reading a request nor a
+    # false result may lead back to another read_response (decided by reachability on the CFG, so
+    # `return`, `break` and flag variables are all fine)
+    lcfg = loop.cfg
+    reads = [n for n, c in lcfg.find(lambda x: q.is_call(x, ".read_response"))]
+    ck.floor("C05.loop-exits-on-error", len(reads), 1, "read_response call sites in the serving loop")
+    read_ids = {n.id for n in reads}
+
+    def reaches_read(start_ids):
+        seen = set(start_ids)
+        st = list(start_ids)
+        while st:
+            x = st.pop()
+            if x in read_ids:
+                return True
+            for y, _k in lcfg.succ[x]:
+                if y not in seen:
+                    seen.add(y)
+                    st.append(y)
+        return False
+
     nh = 0
     for t in [x for x in q.walk_body(loop.node) if isinstance(x, ast.Try)]:
         if not any(q.is_call(c, ".read_response") for st in t.body for c in q.calls(st)):
             continue
         for h in t.handlers:
+            hn = [n for n in lcfg.nodes if n.kind == "handler" and n.ast is h]
+            if not hn:
+                continue
             nh += 1
-            last = h.body[-1]
-            ck.ob("C05.loop-exits-on-error", loop, h, isinstance(last, (ast.Return, ast.Raise)) and not any(isinstance(x, ast.Continue) for st in h.body for x in ast.walk(st)),
-                  "an error while reading a request ends the serving loop (handler ends in return/raise)", construct="except %s" % ",".join(q.handler_names(h)))
+            ck.ob("C05.loop-exits-on-error", loop, h, not reaches_read([hn[0].id]),
+                  "an error while reading a request ends the serving loop (no path from the handler back to read_response)", construct="except %s" % ",".join(q.handler_names(h)))
     ck.floor("C05.loop-exits-on-error", nh, 2, "handlers around read_response")
-    stops = [n for n in loop.cfg.stmt_nodes(lambda n: n.kind == "test" and q.dotted(n.ast) is not None)]
-    facts_l = must_facts(loop.cfg)
-    rets = [n for n in loop.cfg.stmt_nodes(lambda n: n.kind == "stmt" and isinstance(n.ast, ast.Return))]
-    ck.ob("C05.loop-exits-on-error", loop, loop.node, any(any(pol is False and t.isidentifier() for t, pol in facts_l[r.id]) for r in rets),
-          "a false result of read_response (connection closed or to be closed) ends the serving loop", construct="if not ret: return")
+    # the name bound to the result of read_response
+    res_names = set()
+    for n in reads:
+        if n.kind == "stmt" and isinstance(n.ast, (ast.Assign, ast.AnnAssign)):
+            res_names |= {p_ for p_ in q.assigned_paths(n.ast) if p_.isidentifier()}
+    tests = [n for n in lcfg.stmt_nodes(lambda n: n.kind == "test" and q.dotted(n.ast) in res_names)]
+    if not tests:
+        # the result is never branched on: the loop cannot stop on a false result if a normal path leads
+        # from the read back to the next read
+        for n in reads:
+            nxt = [sid for sid, k in lcfg.succ[n.id] if k != "exc"]
+            if any(x.suspends or True for x in [n]) and reaches_read([y for x in nxt for y, k2 in lcfg.succ[x]] + [x for x in nxt if x not in read_ids]):
+                ck.ob("C05.loop-exits-on-error", loop, n.ast, False, "the result of read_response is never tested although the loop goes on to the next request", construct="result of read_response ignored")
+                return_early = True
+        if not res_names:
+            raise AnalysisError("serving loop: cannot find the test of read_response's result (unknown idiom)")
+    for tn in tests:
+        false_succ = [sid for sid, k in lcfg.succ[tn.id] if k == "false"]
+        ck.ob("C05.loop-exits-on-error", loop, tn.ast, not reaches_read(false_succ),
+              "a false result of read_response (connection closed or to be closed) ends the serving loop", construct="false result of read_response")
 
     # adapters
     nf = 0
